@@ -274,14 +274,22 @@ def judge_pair(part, wname, interval, sname, k_raw, vkind):
     if a["bars"][:k + 1] != b["bars"][:k + 1]:
         part.violation("C02|prefix|bar-index", "the bar timestamps of the common prefix differ", case, {"a": [str(x) for x in a["bars"][:k + 1]], "b": [str(x) for x in b["bars"][:k + 1]]})
         return
-    if a.get("columns") != b.get("columns"):
-        part.violation("C02|prefix|columns", "the account history has different columns", case)
+    # a column that only one of the two histories has (a token that enters the wallet after the cut) must be EMPTY on the common prefix of the other one: a
+    # column is presentation, what a bar's row says about the bar is the content
+    EMPTY = ("nan", "Dnan", "None", "<NA>", "NaT")
+    cols = list(dict.fromkeys(list(a.get("columns") or []) + list(b.get("columns") or [])))
+    ia = {c: j for j, c in enumerate(a.get("columns") or [])}
+    ib = {c: j for j, c in enumerate(b.get("columns") or [])}
+    if len(ia) != len(a.get("columns") or []) or len(ib) != len(b.get("columns") or []):
+        part.violation("C02|prefix|columns", "the account history has duplicate columns", case)
         return
     for i in range(k + 1):
-        if a["rows"][i] != b["rows"][i]:
-            diff = [a["columns"][j] for j in range(len(a["rows"][i])) if a["rows"][i][j] != b["rows"][i][j]]
+        ra = {c: (a["rows"][i][ia[c]] if c in ia else "nan") for c in cols}
+        rb = {c: (b["rows"][i][ib[c]] if c in ib else "nan") for c in cols}
+        diff = [c for c in cols if ra[c] != rb[c] and not (ra[c] in EMPTY and rb[c] in EMPTY)]
+        if diff:
             part.violation(f"C02|prefix|history|{vkind}", "account history rows of the common prefix differ between two histories that agree up to the cut", case,
-                           {"bar": i, "columns": diff[:6], "a": [a["rows"][i][a["columns"].index(c)] for c in diff[:3]], "b": [b["rows"][i][b["columns"].index(c)] for c in diff[:3]]})
+                           {"bar": i, "columns": diff[:6], "a": [ra[c] for c in diff[:3]], "b": [rb[c] for c in diff[:3]]})
             break
     t_k = a["bars"][k].to_pydatetime()
     aa = [x for x in a["actions"] if x[0] <= t_k]
